@@ -125,29 +125,29 @@ inline std::vector<Ctor>& ctors() {
   add("EllipticFunction(k2,alpha2,kp2,alphap2)", {0.3, 0.2, 0.7, 0.8}, "ffkk", [](P p) { EllipticFunction e(p[0], p[1], p[2], p[3]); (void)e; }, efx4);
   add("EllipticFunction::Reset(k2,alpha2,kp2,alphap2)", {0.3, 0.2, 0.7, 0.8}, "ffkk", [](P p) { EllipticFunction e; e.Reset(p[0], p[1], p[2], p[3]); }, efx4);
   // ---- spherical harmonics: (N) / (N, nmx, mmx) against vectors sized for N = 4
-  add("SphericalHarmonic(C,S,N,a)", {4, 6.4e6}, "ir", [](P p) { SphericalHarmonic h(W().C, W().S, (int)p[0], p[1]); (void)h; },
-      [](P p) { int N = (int)p[0]; return (N >= -1 && N <= 4) ? 0 : 1; });
-  add("SphericalHarmonic(C,S,N,nmx,mmx,a)", {4, 3, 2, 6.4e6}, "iiir", [](P p) { SphericalHarmonic h(W().C, W().S, (int)p[0], (int)p[1], (int)p[2], p[3]); (void)h; },
+  add("SphericalHarmonic(C,S,N,a)", {4, 6.4e6}, "ir", [](P p) { SphericalHarmonic h(W().C, W().S, I(p[0]), p[1]); (void)h; },
+      [](P p) { int N = I(p[0]); return (N >= -1 && N <= 4) ? 0 : 1; });
+  add("SphericalHarmonic(C,S,N,nmx,mmx,a)", {4, 3, 2, 6.4e6}, "iiir", [](P p) { SphericalHarmonic h(W().C, W().S, I(p[0]), I(p[1]), I(p[2]), p[3]); (void)h; },
       [](P p) { long long N = (long long)p[0], n = (long long)p[1], m = (long long)p[2];
         bool valid = (N >= n && n >= m && m >= 0) || (n == -1 && m == -1 && N >= -1);
         if (!valid) return 1; return N <= 4 ? 0 : -1; });
-  add("SphericalHarmonic1(C,S,N,C1,S1,N1,a)", {4, 2, 6.4e6}, "iir", [](P p) { SphericalHarmonic1 h(W().C, W().S, (int)p[0], W().C1, W().S1, (int)p[1], p[2]); (void)h; },
-      [](P p) { int N = (int)p[0], N1 = (int)p[1]; if (N < -1 || N1 < -1 || N > 4 || N1 > 2) return 1; return N1 <= N ? 0 : -1; });
+  add("SphericalHarmonic1(C,S,N,C1,S1,N1,a)", {4, 2, 6.4e6}, "iir", [](P p) { SphericalHarmonic1 h(W().C, W().S, I(p[0]), W().C1, W().S1, I(p[1]), p[2]); (void)h; },
+      [](P p) { int N = I(p[0]), N1 = I(p[1]); if (N < -1 || N1 < -1 || N > 4 || N1 > 2) return 1; return N1 <= N ? 0 : -1; });
   add("SphericalHarmonic1(C,S,N,nmx,mmx,C1,S1,N1,nmx1,mmx1,a)", {4, 3, 2, 2, 2, 1, 6.4e6}, "iiiiiir",
-      [](P p) { SphericalHarmonic1 h(W().C, W().S, (int)p[0], (int)p[1], (int)p[2], W().C1, W().S1, (int)p[3], (int)p[4], (int)p[5], p[6]); (void)h; },
+      [](P p) { SphericalHarmonic1 h(W().C, W().S, I(p[0]), I(p[1]), I(p[2]), W().C1, W().S1, I(p[3]), I(p[4]), I(p[5]), p[6]); (void)h; },
       [](P p) { bool typical = p[0] == 4 && p[1] == 3 && p[2] == 2 && p[3] == 2 && p[4] == 2 && p[5] == 1; return typical ? 0 : -1; });
-  add("SphericalHarmonic2(C,S,N,C1,S1,N1,C2,S2,N2,a)", {4, 2, 2, 6.4e6}, "iiir", [](P p) { SphericalHarmonic2 h(W().C, W().S, (int)p[0], W().C1, W().S1, (int)p[1], W().C1, W().S1, (int)p[2], p[3]); (void)h; },
-      [](P p) { int N = (int)p[0], N1 = (int)p[1], N2 = (int)p[2]; if (N < -1 || N1 < -1 || N2 < -1 || N > 4 || N1 > 2 || N2 > 2) return 1; return (N1 <= N && N2 <= N) ? 0 : -1; });
-  add("SphericalEngine::coeff(C,S,N,nmx,mmx)", {4, 4, 4}, "iii", [](P p) { SphericalEngine::coeff c(W().C, W().S, (int)p[0], (int)p[1], (int)p[2]); (void)c; },
+  add("SphericalHarmonic2(C,S,N,C1,S1,N1,C2,S2,N2,a)", {4, 2, 2, 6.4e6}, "iiir", [](P p) { SphericalHarmonic2 h(W().C, W().S, I(p[0]), W().C1, W().S1, I(p[1]), W().C1, W().S1, I(p[2]), p[3]); (void)h; },
+      [](P p) { int N = I(p[0]), N1 = I(p[1]), N2 = I(p[2]); if (N < -1 || N1 < -1 || N2 < -1 || N > 4 || N1 > 2 || N2 > 2) return 1; return (N1 <= N && N2 <= N) ? 0 : -1; });
+  add("SphericalEngine::coeff(C,S,N,nmx,mmx)", {4, 4, 4}, "iii", [](P p) { SphericalEngine::coeff c(W().C, W().S, I(p[0]), I(p[1]), I(p[2])); (void)c; },
       [](P p) { long long N = (long long)p[0], n = (long long)p[1], m = (long long)p[2];
         bool valid = (N >= n && n >= m && m >= 0) || (n == -1 && m == -1 && N >= -1);
         if (!valid) return 1; return N <= 4 ? 0 : -1; });
-  add("DST(N)", {8}, "i", [](P p) { DST d((int)p[0]); (void)d; }, [](P p) { return (p[0] >= 0 && p[0] <= 4096) ? 0 : -1; });
-  add("DST::reset(N)", {8}, "i", [](P p) { DST d(4); d.reset((int)p[0]); }, [](P p) { return (p[0] >= 0 && p[0] <= 4096) ? 0 : -1; });
-  add("NearestNeighbor(pts,dist,bucket)", {4}, "i", [](P p) { static const std::vector<NNPt> pts = nn_points(20); NNDist d{nullptr, 0}; NNTree t(pts, d, (int)p[0]); (void)t; },
+  add("DST(N)", {8}, "i", [](P p) { DST d(I(p[0])); (void)d; }, [](P p) { return (p[0] >= 0 && p[0] <= 4096) ? 0 : -1; });
+  add("DST::reset(N)", {8}, "i", [](P p) { DST d(4); d.reset(I(p[0])); }, [](P p) { return (p[0] >= 0 && p[0] <= 4096) ? 0 : -1; });
+  add("NearestNeighbor(pts,dist,bucket)", {4}, "i", [](P p) { static const std::vector<NNPt> pts = nn_points(20); NNDist d{nullptr, 0}; NNTree t(pts, d, I(p[0])); (void)t; },
       [](P p) { return (p[0] >= 0 && p[0] <= 10) ? 0 : 1; });
-  add("GeoCoords(lat,lon,zone)", {33.3, 44.4, -1}, "lri", [](P p) { GeoCoords g(p[0], p[1], (int)p[2]); (void)g; },
-      [](P p) { if (!(std::fabs(p[0]) <= 90) && !std::isnan(p[0])) return 1; int z = (int)p[2]; if (z < -4 || z > 60) return 1;
+  add("GeoCoords(lat,lon,zone)", {33.3, 44.4, -1}, "lri", [](P p) { GeoCoords g(p[0], p[1], I(p[2])); (void)g; },
+      [](P p) { if (!(std::fabs(p[0]) <= 90) && !std::isnan(p[0])) return 1; int z = I(p[2]); if (z < -4 || z > 60) return 1;
         bool typical = p[0] == 33.3 && p[1] == 44.4 && z == -1; return typical ? 0 : -1; });
   return C;
 }
